@@ -36,7 +36,7 @@ TCP_PORTS = [9050, 9150, 9051, 9151, 1080, 8118, 9, 90, 905, 915, 65535, 10050, 
 V4_HOSTS = ["127.0.0.1", "127.0.0.20", "192.168.0.1", "10.0.0.1", "0.0.0.0"]
 V6_HOSTS = ["::1", "2001:db8::5"]
 UNIX_PATHS = ["/run/tor/socks", "/tmp/tor2/socks", "/var/lib/tor/s.sock", "/tmp/9050"]
-QUOTED_UNIX_PATHS = ["/run/tor/so cks", "/tmp/a b/socks", "/run/tor/socks"]
+QUOTED_UNIX_PATHS = ["/run/tor/so cks", "/tmp/a b/socks", "/run/tor/q.sock"]
 
 AUTO_PORT_BASE = 51000          # what the reference Tor "picked" for the i-th ``auto`` entry
 DEFAULT_SOCKS = ("tcp", "127.0.0.1", 9050)
